@@ -125,10 +125,19 @@ def stencil_case(rep, d, order, st, steps):
             w, s = get_finite_difference_stencil(derivative=d, steps=np.array(steps))
     except np.linalg.LinAlgError:
         return
+    except Exception as e:
+        if steps is None:  # a standard layout requested by (derivative, order, type) must be delivered
+            rep.replayed += 1
+            rep.violation(f'{PID}/stencil/{st}/raises', f'{name}: get_finite_difference_stencil raises {type(e).__name__}: {e}', {'task': ['stencil', d, order, st, steps], 'raises': type(e).__name__})
+            return
+        raise
     n = len(s)
     if d >= n:
         return
-    deg = n - 1  # exact for degree < n  (= derivative + order for the standard layouts)
+    # exact for degree < n; a layout requested by (derivative, order) must be exact for degree < derivative + order whatever its width
+    deg = n - 1
+    if steps is None:
+        deg = max(n - 1, d + order - 1)
     if steps is None and n != order + d - (1 if st == 'center' and d % 2 == 0 else 0) and st != 'center':
         rep.side(f'{name}:stencil-width', n == order + d, (n, order + d))
     a, val = poly_terms(deg, [])
@@ -385,6 +394,18 @@ def replay(path):
         A2, b2 = get_finite_difference_matrix(bc_params=[full(d['left']), full(d['right'])], **kw)
         print('b (partial dictionaries)', np.asarray(b1).tolist(), 'b (spelled out)', np.asarray(b2).tolist())
         bad = not (np.array_equal(A1.toarray(), A2.toarray()) and np.array_equal(b1, b2))
+    elif t[0] == 'stencil':
+        try:
+            w, s = get_finite_difference_stencil(derivative=t[1], order=t[2], stencil_type=t[3], steps=(np.array(t[4]) if t[4] is not None else None))
+        except Exception as e:
+            print('raises', type(e).__name__, e)
+            bad = t[4] is None
+        else:
+            coefs = d['coefficients']
+            got = sum(w[i] * np.polyval(coefs[::-1], s[i]) for i in range(len(s)))
+            ex = math.factorial(t[1]) * coefs[t[1]]
+            print('offsets', s.tolist(), 'weights', w.tolist(), 'observed', got, 'exact derivative', ex)
+            bad = abs(got - ex) > 1e-9 * (1 + sum(abs(w[i]) * max(1, abs(int(s[i]))) ** (len(coefs) - 1) for i in range(len(s))))
     else:
         print(d)
         bad = True
